@@ -22,12 +22,12 @@ from vf import model, report  # noqa: E402
 
 def run_property(prop, tier, root, out_dir=None, quiet=False, only_rules=None):
     prog = model.Program(root)
-    mod = importlib.import_module("vf.props.%s" % prop.lower())
+    from vf import runner
     run = report.Run(prop, tier, root)
     run.only_rules = only_rules
     run.aborted = None
     try:
-        mod.check(prog, run)
+        runner.run_checks(prop, prog, run)
     except model.AnalysisError as e:
         # keep what the rules that did run have found: a violation already located is reported (exit 1);
         # without one the run is an analysis error (exit 2)
